@@ -28,6 +28,24 @@ CORPUS_PACKAGES = (("cirq", "cirq.protocols"), ("cirq_google", "cirq_google"), (
                    ("cirq_aqt", "cirq_aqt"), ("cirq_pasqal", "cirq_pasqal"), ("cirq.contrib", "cirq.contrib"))
 
 
+# derivations offered per kind of value (engines/node_main.py: derive_family / _derive_one)
+DERIVATIONS = {
+    "circuit": ("with_tags", "freeze", "unfreeze", "untagged", "key_mapping", "key_path_prefix",
+                "transform_qubits", "resolve", "inverse"),
+    "circuitop": ("with_tags", "repeat", "with_params", "replace", "key_mapping", "key_path_prefix",
+                  "transform_qubits", "with_qubits", "untagged", "resolve", "inverse", "controlled_by"),
+    "op": ("with_tags", "with_qubits", "controlled_by", "inverse", "pow", "transform_qubits", "untagged",
+           "key_mapping", "key_path_prefix", "resolve", "with_classical_controls"),
+    "moment": ("with_operation", "with_tags", "transform_qubits", "key_mapping", "key_path_prefix", "resolve",
+               "inverse"),
+    "gate": ("on", "controlled_by", "inverse", "pow", "resolve"),
+    "mkey": ("key_path_prefix",),
+    "qid": ("with_dimension",),
+    "other": ("resolve", "key_mapping", "key_path_prefix", "inverse"),
+}
+RECIPE_SOURCE_WEIGHTS = ((6, 1, 1), (4, 2, 3), (2, 2, 5))     # generated / stored example / mutated stored example
+
+
 def _family(transport: str) -> str:
     if transport.startswith("pickle"):
         return "pickle"
@@ -37,10 +55,11 @@ def _family(transport: str) -> str:
 
 
 class _Held:
-    __slots__ = ("rid", "via", "hops", "touched", "procs", "hash_cached")
+    __slots__ = ("rid", "via", "hops", "touched", "procs", "hash_cached", "family")
 
-    def __init__(self, rid, via, hops, procs, hash_cached=False):
+    def __init__(self, rid, via, hops, procs, hash_cached=False, family="none"):
         self.rid = rid
+        self.family = family
         self.via = via            # "build" | "copy" | "deepcopy" | "corpus" | transport name
         self.hops = hops
         self.touched = set()
@@ -87,7 +106,7 @@ class _Run:
                 self.pool.release(n.proc)
                 n.proc = None
 
-    def call(self, node: _LNode, req: dict, what: str) -> dict:
+    def call(self, node: _LNode, req: dict, what: str, vtype: Optional[str] = None) -> dict:
         try:
             resp = node.proc.call(req)
         except self.cluster.NodeDied as e:
@@ -97,10 +116,10 @@ class _Run:
                                 fingerprint=f"{P}-SUT-EXCEPTION:node-death:{what}") from None
             raise
         if resp["status"] == "sut":
-            self.sut_failure(node, resp["failure"], what)
+            self.sut_failure(node, resp["failure"], what, vtype)
         return resp
 
-    def sut_failure(self, node: _LNode, f: dict, what: str):
+    def sut_failure(self, node: _LNode, f: dict, what: str, vtype: Optional[str] = None):
         op = f["op"]
         site = f.get("site") or "outside-the-tree"
         cls = f"{P}-CORPUS" if op.startswith("corpus") else f"{P}-SUT-EXCEPTION"
@@ -116,9 +135,14 @@ class _Run:
             fam = op
         else:
             fam = _family(parts[1]) if len(parts) > 1 else parts[0]
+        subject = f.get("subject")
+        if subject and not subject.startswith("builtins."):
+            vtype = subject
+        if parts[-1] in ("eq", "ne", "hash", "lookup") and parts[0] != "touch":
+            fam = parts[-1]        # == / hash itself raises: one fingerprint whatever transport brought the value
         v = Violation(cls, f"{what} on node {node.idx} (PYTHONHASHSEED={node.seed}): {op} raised "
-                      f"{f['exc_type']}: {f['exc_msg']}{hist} at {site}",
-                      fingerprint=f"{cls}:{fam}:{f['exc_type']}@{site}")
+                      f"{f['exc_type']}: {f['exc_msg']}{hist} at {site}" + (f"; value of type {vtype}" if vtype else ""),
+                      fingerprint=f"{cls}:{fam}:{f['exc_type']}@{site}" + (f":{vtype}" if vtype else ""))
         v.traceback_text = f.get("tb")
         raise v
 
@@ -150,8 +174,22 @@ class _Run:
     def new_recipe(self) -> int:
         from checks import c11_gen
         t = self.t
-        use_corpus = t.chance((1, 3, 6)[self.corpus_bias], 8, "recipe.corpus")
-        if use_corpus:
+        source = t.weighted(RECIPE_SOURCE_WEIGHTS[self.corpus_bias], "recipe.source")
+        rec = None
+        if source == 2:
+            # a stored example whose literals are changed under tape control: a legal instance (if the
+            # constructors accept it) with non-default / falsy / unsorted arguments, for ~every registered class
+            pkg, name = t.pick(self.check.corpus_outward, "recipe.corpus-entry")
+            text, how = c11_gen.mutate_repr(t, self.check.corpus_text[(pkg, name)])
+            if text is not None:
+                dig = hashlib.sha1(text.encode()).hexdigest()[:8]
+                rec = {"recipe": ["mutrepr", pkg, name, text], "label": f"mut:{pkg}/{name}#{dig}", "kind": "mutated",
+                       "flags": frozenset(), "named_deep": False, "how": how}
+            else:
+                source = 1
+                rec = {"recipe": ["corpus", pkg, name], "label": f"corpus:{pkg}/{name}", "kind": "corpus",
+                       "flags": frozenset(), "named_deep": False}
+        elif source == 1:
             pkg, name = t.pick(self.check.corpus_outward, "recipe.corpus-entry")
             rec = {"recipe": ["corpus", pkg, name], "label": f"corpus:{pkg}/{name}", "kind": "corpus",
                    "flags": frozenset(), "named_deep": False}
@@ -184,7 +222,7 @@ class _Run:
 
     def op_build(self) -> None:
         node = self.pick_node("build.node")
-        reuse = [i for i in range(len(self.recipes))]
+        reuse = [i for i in range(len(self.recipes)) if not self.recipes[i].get("rejected")]
         if reuse and self.t.chance(1, 4, "build.reuse-recipe"):
             rid = self.t.pick(reuse, "build.recipe")
         else:
@@ -193,8 +231,15 @@ class _Run:
         slot = node.new_slot()
         self.ctx.decide("build", node.idx, slot, self.label(rid))
         resp = self.call(node, {"op": "build", "slot": slot, "recipe": self.recipes[rid]["recipe"]}, "build")
-        node.held[slot] = _Held(rid, "build", 0, ((node.idx, node.gen),))
         rec = self.recipes[rid]
+        if resp["rejected"]:
+            rec["rejected"] = True
+            self.ctx.event("rejected", rec.get("how"), resp["exc_type"])
+            self.ctx.probe("mutated-repr-rejected")
+            return
+        if rec["kind"] == "mutated":
+            self.ctx.probe("mutated-repr-accepted")
+        node.held[slot] = _Held(rid, "build", 0, ((node.idx, node.gen),), family=resp["family"])
         rec.setdefault("type", resp["type"])
         rec.setdefault("cirq_top", resp["cirq_top"])
         self.ctx.event("built", resp["type"])
@@ -208,7 +253,8 @@ class _Run:
             kinds.append(self.t.pick(TOUCH_KINDS, "touch.kind"))
         h = node.held[slot]
         self.ctx.decide("touch", node.idx, slot, tuple(kinds))
-        resp = self.call(node, {"op": "touch", "slot": slot, "kinds": kinds}, "touch")
+        resp = self.call(node, {"op": "touch", "slot": slot, "kinds": kinds}, "touch",
+                         vtype=self.recipes[h.rid].get("type"))
         results = tuple(resp["results"])
         self.ctx.event("touched", results)
         for k, r in zip(kinds, results):
@@ -220,7 +266,8 @@ class _Run:
                 raise Violation(f"{P}-NEQ", f"value {self.label(h.rid)} held on node {node.idx} is not equal to "
                                 f"itself", fingerprint=f"{P}-NEQ:self:{self.recipes[h.rid].get('type')}")
 
-    def check_verdict(self, v: dict, cls_eq: str, what: str, label: str, detail: str) -> None:
+    def check_verdict(self, v: dict, cls_eq: str, what: str, label: str, detail: str,
+                      cls_hash: str = f"{P}-HASH") -> None:
         self.ctx.event("verdict", what, v["eq"], v["eq_rev"], v["ne_false"], v["hashable_same"], v["hash_eq"],
                        v["lookup"], v["hashable"])
         where = v.get("where")
@@ -233,15 +280,16 @@ class _Run:
             raise Violation(cls_eq, f"{detail}: a == b but a != b is also true; component {where}; value {label}",
                             fingerprint=f"{cls_eq}:{fam}:ne:{where}")
         if not v["hashable_same"]:
-            raise Violation(f"{P}-HASH", f"{detail}: one of two equal values is hashable, the other is not "
-                            f"({where}); value {label}", fingerprint=f"{P}-HASH:{fam}:hashable:{where}")
+            raise Violation(cls_hash, f"{detail}: one of two equal values is hashable, the other is not "
+                            f"({where}); value {label}", fingerprint=f"{cls_hash}:{fam}:hashable:{where}")
         if not v["hash_eq"]:
-            raise Violation(f"{P}-HASH", f"{detail}: equal values have different hash() on this node; component "
-                            f"{where}; value {label}", fingerprint=f"{P}-HASH:{fam}:{where}")
+            raise Violation(cls_hash, f"{detail}: equal values have different hash() on this node; component "
+                            f"{where}; value {label}", fingerprint=f"{cls_hash}:{fam}:hash:{where}"
+                            if cls_hash != f"{P}-HASH" else f"{P}-HASH:{fam}:{where}")
         if not v["lookup"]:
-            raise Violation(f"{P}-HASH", f"{detail}: the value does not find its equal reference in a dict/set "
+            raise Violation(cls_hash, f"{detail}: the value does not find its equal reference in a dict/set "
                             f"on this node; component {where}; value {label}",
-                            fingerprint=f"{P}-HASH:{fam}:lookup:{where}")
+                            fingerprint=f"{cls_hash}:{fam}:lookup:{where}")
 
     def op_copy(self) -> None:
         node = self.pick_node("copy.node", lambda n: n.held)
@@ -255,7 +303,7 @@ class _Run:
         name = "deepcopy" if deep else "copy"
         self.ctx.decide(name, node.idx, slot, new_slot)
         resp = self.call(node, {"op": "copy", "slot": slot, "new_slot": new_slot, "deep": deep,
-                                "recipe": self.recipes[h.rid]["recipe"]}, name)
+                                "recipe": self.recipes[h.rid]["recipe"]}, name, vtype=self.recipes[h.rid].get("type"))
         if resp["unsupported"]:
             self.ctx.event("unsupported", name, self.recipes[h.rid].get("type"))
             self.ctx.probe(f"unsupported:{name}")
@@ -265,8 +313,82 @@ class _Run:
         self.check_verdict(resp["verdict"], f"{P}-COPY", name, self.label(h.rid),
                            f"copy.{name} on node {node.idx} (PYTHONHASHSEED={node.seed}) of a value with touched "
                            f"caches {sorted(h.touched)}")
-        nh = _Held(h.rid, name, h.hops, h.procs, hash_cached=True)
+        nh = _Held(h.rid, name, h.hops, h.procs, hash_cached=True, family=h.family)
         node.held[new_slot] = nh
+
+    def derive_args(self, method: str):
+        from checks import c11_gen
+        t = self.t
+        if method == "with_tags":
+            return [[["tag", "str", "t"]], [["tag", "virtual"]], [["tag", "str", "tag2"], ["tag", "physz"]]][
+                t.draw(3, "derive.tags")]
+        if method == "key_path_prefix":
+            return t.pick((["pre"], ["a", "b"]), "derive.path")
+        if method == "pow":
+            return [t.pick((["f", 1, 2], ["i", -1], ["i", 2], ["s", "a"]), "derive.exponent")]
+        if method == "repeat":
+            return [t.pick((2, 3), "derive.repetitions")]
+        if method == "with_params":
+            return [["a", ["f", 1, 2]], ["theta", ["s", "b"]]][:1 + t.draw(2, "derive.params")]
+        if method == "replace":
+            return [t.pick(("outer", "x"), "derive.parent")]
+        if method == "resolve":
+            return [["a", ["f", 1, 2]], ["b", ["f", 1, 4]], ["theta", ["i", 1]], ["n", ["i", 2]]]
+        if method == "with_dimension":
+            return [t.pick((3, 2, 4), "derive.dimension")]
+        if method == "with_classical_controls":
+            return [c11_gen.Gen(t).condition()]
+        return []
+
+    def op_derive(self) -> None:
+        """Derive a new value from a held one through a public method -- after its caches were touched, after
+        hops, after copies -- and compare with the same derivation of a fresh untouched equal value."""
+        t, ctx = self.t, self.ctx
+        node = self.pick_node("derive.node", lambda n: any(h.family in DERIVATIONS for h in n.held.values()))
+        if node is None:
+            return
+        slots = [s for s in sorted(node.held) if node.held[s].family in DERIVATIONS]
+        slot = slots[len(slots) - 1 - t.draw(len(slots), "derive.slot")]
+        h = node.held[slot]
+        base = self.recipes[h.rid]
+        method = t.pick(DERIVATIONS[h.family], "derive.method")
+        args = self.derive_args(method)
+        depth = 0
+        r = base["recipe"]
+        while r[0] == "derive":
+            depth += 1
+            r = r[3]
+        if depth >= 2:
+            return
+        self.make_room(node)
+        if slot not in node.held:
+            return
+        new_slot = node.new_slot()
+        ctx.decide("derive", node.idx, slot, new_slot, method, json.dumps(args))
+        resp = self.call(node, {"op": "derive", "slot": slot, "new_slot": new_slot, "method": method, "args": args,
+                                "recipe": base["recipe"]}, f"derive {method}", vtype=base.get("type"))
+        if resp["na"]:
+            ctx.event("derive-na", resp["why"].split(":")[0])
+            ctx.probe("derive-not-applicable")
+            return
+        ctx.probe("derive")
+        if h.touched or h.hash_cached:
+            ctx.probe("derive-after-touch")
+        if h.hash_cached:
+            ctx.probe("derive-after-hash-cached")
+        if h.hops:
+            ctx.probe("derive-after-hop")
+        ctx.state(("derive", h.family, method, bool(h.touched or h.hash_cached), min(h.hops, 2)))
+        self.check_verdict(resp["verdict"], f"{P}-DERIVED", f"derive:{method}", base["label"],
+                           f"{method}() on node {node.idx} (PYTHONHASHSEED={node.seed}) of a held value (arrived via "
+                           f"{h.via}, hops {h.hops}, touched {sorted(h.touched)}, hash cached: {h.hash_cached}) "
+                           f"compared with {method}() of a freshly built equal value", cls_hash=f"{P}-DERIVED")
+        rec = {"recipe": ["derive", method, args, base["recipe"]], "label": f"der:{method}:{base['label']}"[:120],
+               "kind": "derived", "flags": base["flags"], "named_deep": base["named_deep"], "type": resp["type"],
+               "cirq_top": resp["cirq_top"]}
+        self.recipes.append(rec)
+        node.held[new_slot] = _Held(len(self.recipes) - 1, "derive", h.hops, h.procs, hash_cached=True,
+                                    family=resp["family"])
 
     def op_export(self) -> None:
         node = self.pick_node("export.node", lambda n: n.held)
@@ -278,7 +400,7 @@ class _Run:
             transport = "json"     # printed representations of non-Cirq values are not Cirq's to keep
         self.ctx.decide("export", node.idx, slot, transport)
         resp = self.call(node, {"op": "export", "slot": slot, "transport": transport, "recipe": rec["recipe"]},
-                         f"export {transport}")
+                         f"export {transport}", vtype=rec.get("type"))
         if resp["unsupported"]:
             self.ctx.event("unsupported", "export", transport, rec.get("type"))
             self.ctx.probe("unsupported:pickle")
@@ -321,7 +443,7 @@ class _Run:
         transport = m["transport"]
         ctx.decide("import", node.idx, slot, transport, m["src"][0], m["src"][1])
         resp = self.call(node, {"op": "import", "slot": slot, "transport": transport, "payload": m["payload"],
-                                "recipe": rec["recipe"]}, f"import {transport}")
+                                "recipe": rec["recipe"]}, f"import {transport}", vtype=rec.get("type"))
         if resp["unsupported"]:
             ctx.event("unsupported", "import", transport, rec.get("type"))
             ctx.probe("repr-not-evaluable")
@@ -360,7 +482,8 @@ class _Run:
                 raise Violation(f"{P}-BEHAVIOUR", f"{detail}: cirq.to_json(imported) is not the text that was "
                                 f"imported; value {rec['label']} ({resp['type']})",
                                 fingerprint=f"{P}-BEHAVIOUR:json-text:{resp['type']}")
-        node.held[slot] = _Held(m["rid"], transport, hops, m["procs"] + ((node.idx, node.gen),), hash_cached=True)
+        node.held[slot] = _Held(m["rid"], transport, hops, m["procs"] + ((node.idx, node.gen),), hash_cached=True,
+                                family=resp["family"])
 
     def op_report(self, node: Optional[_LNode] = None) -> None:
         if node is None:
@@ -456,9 +579,9 @@ class _Run:
             if rid is None:
                 self.recipes.append({"recipe": ["corpus", pkg, name], "label": f"corpus:{pkg}/{name}",
                                      "kind": "corpus", "flags": frozenset(), "named_deep": False,
-                                     "type": resp["type"]})
+                                     "type": resp["type"], "cirq_top": resp["cirq_top"]})
                 rid = len(self.recipes) - 1
-            node.held[slot] = _Held(rid, "corpus", 0, ((node.idx, node.gen),))
+            node.held[slot] = _Held(rid, "corpus", 0, ((node.idx, node.gen),), family=resp["family"])
 
     def op_drop_node(self) -> None:
         node = self.pick_node("drop.node", lambda n: n.held)
@@ -486,7 +609,8 @@ class _Run:
         node.imports = 0
 
     # -- the run ---------------------------------------------------------------------------------------
-    KINDS = ("build", "touch", "export", "import", "copy", "report", "corpus", "sort", "drop-node", "restart")
+    KINDS = ("build", "touch", "export", "import", "copy", "report", "corpus", "sort", "drop-node", "restart",
+             "derive")
 
     def step(self) -> None:
         any_held = any(n.held for n in self.nodes)
@@ -502,6 +626,7 @@ class _Run:
             "sort": 1,
             "drop-node": 1 if any_held else 0,
             "restart": 3 if self.restarts_left > 0 and self.messages else 0,
+            "derive": 5 if any(h.family in DERIVATIONS for n in self.nodes for h in n.held.values()) else 0,
         }
         kind = self.KINDS[self.t.weighted([w[k] for k in self.KINDS], "op")]
         self.ctx.steps += 1
@@ -583,7 +708,7 @@ class C11(Check):
         repoenv.assert_working_tree(cirq)
         from cirq.testing.json import spec_for
         root = repoenv.repo_root()
-        outward, docs = [], []
+        outward, docs, texts = [], [], {}
         for pkg, module in CORPUS_PACKAGES:
             spec = spec_for(module)
             base = str(spec.test_data_path)
@@ -595,6 +720,8 @@ class C11(Check):
                     continue  # the repository's own test reads these only under assert_deprecated
                 if os.path.exists(key + ".json") and os.path.exists(key + ".repr"):
                     outward.append((pkg, name))
+                    with open(key + ".repr") as f:
+                        texts[(pkg, name)] = f.read()
                     docs.append((pkg, name, False))
                 if os.path.exists(key + ".json_inward") and os.path.exists(key + ".repr_inward"):
                     docs.append((pkg, name, True))
@@ -602,6 +729,7 @@ class C11(Check):
             raise HarnessError(f"only {len(outward)} stored examples found under {root}")
         self.corpus_outward = outward
         self.corpus_docs = docs
+        self.corpus_text = texts
         from simkit.findings import Findings
         self._known = {e["fingerprint"] for e in Findings.load().findings if e.get("property") == P}
 
